@@ -16,7 +16,7 @@ from mc.engine import bad, ok, skip
 PROPERTY = "C03"
 LEVEL = "exploration"
 TECHNIQUE = "bounded exhaustive enumeration of nested operator expressions; qp.matrix / simplify / map_wires vs. numpy matrix arithmetic"
-LEVEL_TEXT = ("All expressions of the grammar to depth 1 over 13 leaves (35 unary forms incl. all 10 exponents, 9 control patterns with all "
+LEVEL_TEXT = ("All expressions of the grammar to depth 1 over 14 leaves (35 unary forms incl. all 10 exponents, 9 control patterns with all "
               "control values, 7 scalars; 6 binary forms on all ordered leaf pairs; ternary prod/sum on 5 leaves), depth 2 (every unary form "
               "on ~330 depth-1 expressions, binary forms mixing depth-1 expressions with leaves), depth 3 on 6- and 4-leaf sub-alphabets "
               "(thorough: depth 2 over the full depth-1 set and depth 4 on 4 leaves) are built through the public API; qp.matrix, the matrix "
@@ -147,7 +147,19 @@ def _cob_pauli_rep_wrong(e):
     return any(_cob_pauli_rep_wrong(x) for x in e[1:] if isinstance(x, list) and x and isinstance(x[0], str) and x[0] in X._KINDS)
 
 
+def _sum_of_2pi_shifted(e):
+    """Failure-class test: a sum whose summands include both RX(g1) and RX(g1 + 2pi) = -RX(g1) (equal hashes: rotation angles are
+    hashed modulo 2pi; Sum.simplify merges summands by hash alone)."""
+    if e[0] in ("sum", "+", "-"):
+        lv = X.leaves(e)
+        if "RX0" in lv and "RX0s" in lv:
+            return True
+    return any(_sum_of_2pi_shifted(x) for x in e[1:] if isinstance(x, list) and x and isinstance(x[0], str) and x[0] in X._KINDS)
+
+
 def _mismatch_class(stage, e, op, sh):
+    if stage == "simplify-changes-map" and _sum_of_2pi_shifted(e):
+        return "simplify-changes-map:Sum-merges-summands-with-equal-hash(angle+2pi)"
     if _cob_pauli_rep_wrong(e):
         return f"{stage}:uses-reversed-pauli_rep-of-ChangeOpBasis"
     if stage == "simplify-changes-map" and (_fractional_base_outside(e) or _fractional_base_outside_op(op)):
@@ -157,6 +169,8 @@ def _mismatch_class(stage, e, op, sh):
 
 def _raise_class(stage, exc, e, sh):
     msg = str(exc)
+    if stage == "simplify" and _sum_of_2pi_shifted(e):
+        return "simplify-raises:Sum-merges-summands-with-equal-hash(angle+2pi)"
     if isinstance(exc, TypeError) and ("'Exp' object is not iterable" in msg or "object of type 'Exp' has no len()" in msg) and _pow_over(e, ("exp",)):
         return f"{stage}-raises:TypeError:pow-over-Exp"
     return f"{stage}-raises:{type(exc).__name__}:{sh}"
@@ -170,6 +184,16 @@ def check(e):
     try:
         M, W, _ = X.evaluate(e)
     except X.Skip as s:
+        if s.args[0] == "control-wire-overlaps-target":  # not a linear-map question; record what the implementation does with it
+            try:
+                X.build(e)
+            except ValueError as exc:
+                if _documented_rejection(exc):
+                    return skip("rejected:control-wire-overlaps-target(ValueError)")
+                return skip(f"control-wire-overlaps-target:raises-ValueError:not-judged")
+            except Exception as exc:  # noqa: BLE001
+                return skip(f"control-wire-overlaps-target:raises-{type(exc).__name__}:not-judged")
+            return skip("control-wire-overlaps-target:accepted:not-judged")
         return skip(s.args[0])
     try:
         op = X.build(e)
@@ -274,10 +298,10 @@ def depth1(leaf_names, level="full", binary=X.BINARY, binary_leaves=None, ternar
 def families(tier):
     """name -> list of expressions (complete enumeration; the union is deduplicated by the caller)."""
     F = {}
-    F["depth1:full-menu x 13 leaves + 6 binary forms x 13^2 + ternary x 5^3"] = depth1(X.LEAF_ALL, "full", ternary_leaves=X.LEAF_ALL[:3] + ["CNOT01", "Herm0"])
+    F["depth1:full-menu x 14 leaves + 6 binary forms x 14^2 + ternary x 5^3"] = depth1(X.LEAF_ALL, "full", ternary_leaves=X.LEAF_ALL[:3] + ["CNOT01", "Herm0"])
     e1s = depth1(X.LEAF_ALL, "small", binary=("prod", "sum", "cob"), binary_leaves=X.LEAF6)
     if tier == "thorough":
-        inner = F["depth1:full-menu x 13 leaves + 6 binary forms x 13^2 + ternary x 5^3"]
+        inner = F["depth1:full-menu x 14 leaves + 6 binary forms x 14^2 + ternary x 5^3"]
         F["depth2:full unary menu on every depth-1 expression"] = [f(e) for e in inner for f in X.unary_menu("full")]
         F["depth2:binary(depth-1 small, leaf) both orders"] = [[b, x, y] for b in ("prod", "sum", "cob", "-") for e in e1s for lf in L(X.LEAF_ALL)
                                                                 for x, y in ((e, lf), (lf, e))]
@@ -305,6 +329,8 @@ def run(ctx):
     import json
 
     fam = families(ctx.tier)
+    if ctx.only:  # development aid: restrict to families whose name contains one of the comma separated substrings
+        fam = {k: v for k, v in fam.items() if any(t in k for t in ctx.only.split(","))}
     seen = set()
     counts = {}
     for name, exprs in fam.items():
